@@ -199,6 +199,7 @@ func runC05(c *Ctx) {
 	}
 
 	ruleBdatAccounting(c, bi)
+	ruleDrainFailureCloses(c) // a chunk that cannot be consumed to its declared size ends the connection
 	// end-of-file only after the LAST chunk, and only a well-formed LAST token ends the message
 	rulePipeClose(c)
 }
